@@ -9,6 +9,9 @@ import (
 
 func TestMain(m *testing.M) {
 	code := m.Run()
+	if c20Dir != "" {
+		os.RemoveAll(c20Dir) // the C20 scratch directory, also when only a replay ran
+	}
 	vh.FlushStats()
 	vh.PrintSurvey()
 	os.Exit(code)
